@@ -66,6 +66,7 @@ def make_cases(ctx, rng):
             c["schedule"] = [int(x) + 1 for x in rng.permutation(int(folds))]
         if idx % 11 == 5:
             c["refeed_seed"] = int(c["seed"] + 1 + idx % 3)      # trained models re-applied under another seed
+            c["refeed_reverse"] = bool(idx % 2)                  # ... listed in reverse order
         if c["keyw"] >= 3 and idx % 3 == 0:
             c["share2"] = True      # pairs of distinct spectra that agree on the first two key columns
         cases.append(c)
